@@ -131,6 +131,46 @@ def opaque_edit(text, rnd):
     return text[:a] + new + text[b:]
 
 
+def structured_edits(text, limit=4):
+    """systematic companions of the random edits: the first characters inside string
+    literals and comments become an alternative spelling (each digraph once; '??=' inside
+    strings), and a string gets its code-like worst case (quote of the other kind, braces,
+    semicolons).  Same width, no delimiter, no backslash, no line break; lines near the
+    80-column limit are left alone (known finding K4)."""
+    out = []
+    lines = text.split("\n")
+    header_end = sum(len(ln) + 1 for ln in lines[:11]) if text.startswith("/* ****") else 0
+    spans = []
+    for m in re.finditer(r"/\*(.*?)\*/|//([^\n]*)|\"((?:\\.|[^\"\\\n])*)\"", text, flags=re.S):
+        g = 1 if m.group(1) is not None else (2 if m.group(2) is not None else 3)
+        a, b = m.span(g)
+        if b - a < 4 or a < header_end or "\\" in text[a:b]:
+            continue
+        if text[text.rfind("\n", 0, a) + 1:a].lstrip().startswith("#"):
+            continue            # preprocessor lines are left to the random edits (#include is excluded by the statement)
+        ls, le = text.rfind("\n", 0, a) + 1, text.find("\n", b)
+        if any(len(ln.expandtabs(4)) > 70 for ln in text[ls:le if le >= 0 else len(text)].split("\n")):
+            continue
+        spans.append((a, b, g))
+    fills = ["<%", "%>", "<:", ":>", "%:", "??="]
+    k = 0
+    for a, b, g in spans[:limit]:
+        old = text[a:b]
+        body = old[:3].replace("\n", " ").replace("\t", " ")
+        if "\n" in old[:3] or "\t" in old[:3]:
+            continue
+        f = fills[k % len(fills)]
+        k += 1
+        new = f + old[len(f):]
+        if new != old and "*/" not in new and "/*" not in new:
+            out.append(text[:a] + new + text[b:])
+        if g == 3:
+            worst = ("';{}[]()=+" * 8)[:len(old)]
+            if worst != old:
+                out.append(text[:a] + worst + text[b:])
+    return out
+
+
 def run(tier, seed, replay):
     if replay:
         rp = json.load(open(replay))
@@ -181,6 +221,10 @@ def run(tier, seed, replay):
             pairs.append((name, text, t2))
             tasks.append({"op": "pipeline", "text": text, "name": name})
             tasks.append({"op": "pipeline", "text": t2, "name": name})
+        for t2 in structured_edits(text, 6 if thorough else 3):
+            pairs.append((name, text, t2))
+            tasks.append({"op": "pipeline", "text": text, "name": name})
+            tasks.append({"op": "pipeline", "text": t2, "name": name})
     res = native_batch(tasks)
     fails = []
     for k, (name, a, b) in enumerate(pairs):
@@ -194,7 +238,7 @@ def run(tier, seed, replay):
                     "digraph/trigraph characters of K4, leaves every diagnostic unchanged",
                     f"{len(pairs)} (file, edit) pairs over the repository samples and generated files", len(pairs), fails,
                     nontrivial=len(pairs), samples=[{"file": p[0]} for p in pairs[:3]], time_s=time.time() - t0)
-    explained = any(i.status == "failed" for i in chk.items)
+    explained = chk.has_unlisted_failure()
     if fails and not explained:
         (name, a, b), m = fails[0]
         chk.report_violation("C17.bounded.opaque", {"property": "C17", "obligation": "C17.bounded.opaque",
